@@ -232,6 +232,7 @@ func RunCheck(o CheckOpts) int {
 		timeout = 60
 	}
 
+	cs.AssumeProp = o.Property
 	fnames := functionsFor(prog, cs, o.Property)
 	type job struct {
 		fr *FuncResult
